@@ -897,6 +897,53 @@ class Interp:
             inner = r.field(0)
             if isinstance(inner, Agg) and inner.path == "std::option::Option":
                 return [(NONE if inner.vi == 0 else some(ok(inner.field(0))), st)]
+        # the small conversions between Option and Result, on values of known shape
+        if len(args) >= 1 and isinstance(args[0], Agg) and args[0].path == "std::result::Result":
+            r0 = args[0]
+            m = n.rsplit("::", 1)[-1]
+            if n.startswith("std::result::Result::<T, E>::"):
+                if m == "ok" and len(args) == 1:
+                    return [(some(r0.field(0)) if r0.vi == 0 else NONE, st)]
+                if m == "err" and len(args) == 1:
+                    return [(some(r0.field(0)) if r0.vi == 1 else NONE, st)]
+                if m in ("is_ok", "is_err") and len(args) == 1:
+                    return [(Const((r0.vi == 0) == (m == "is_ok")), st)]
+                if m == "unwrap_or_default" and r0.vi == 0:
+                    return [(r0.field(0), st)]
+        if len(args) >= 1 and isinstance(args[0], Agg) and args[0].path == "std::option::Option":
+            o0 = args[0]
+            m = n.rsplit("::", 1)[-1]
+            if n.startswith("std::option::Option::<T>::") or n.startswith("std::option::Option::<std::"):
+                if m in ("is_some", "is_none") and len(args) == 1:
+                    return [(Const((o0.vi == 1) == (m == "is_some")), st)]
+                if m == "transpose" and len(args) == 1:
+                    # Option<Result<T, E>> -> Result<Option<T>, E>
+                    if o0.vi == 0:
+                        return [(ok(NONE), st)]
+                    inner = o0.field(0)
+                    if isinstance(inner, Agg) and inner.path == "std::result::Result":
+                        return [(ok(some(inner.field(0))) if inner.vi == 0 else err(inner.field(0)), st)]
+                if m == "flatten" and len(args) == 1:
+                    if o0.vi == 0:
+                        return [(NONE, st)]
+                    if isinstance(o0.field(0), Agg) and o0.field(0).path == "std::option::Option":
+                        return [(o0.field(0), st)]
+                if m in ("and_then", "filter", "or_else") and len(args) == 2:
+                    if (o0.vi == 0) != (m == "or_else"):
+                        return [(o0, st)] if m != "or_else" else None
+                    if m == "or_else":
+                        return self.apply_closure(args[1], [], st, getattr(self, "_cur_depth", 0))
+                    if m == "and_then":
+                        return self.apply_closure(args[1], [o0.field(0)], st, getattr(self, "_cur_depth", 0))
+        if n in ("core::bool::<impl bool>::then_some", "core::bool::<impl bool>::then") and len(args) == 2 and isinstance(args[0], Const) \
+                and isinstance(args[0].v, (bool, int)):
+            if not args[0].v:
+                return [(NONE, st)]
+            if n.endswith("then_some"):
+                return [(some(args[1]), st)]
+            r = self.apply_closure(args[1], [], st, getattr(self, "_cur_depth", 0))
+            if r is not None:
+                return [(k, some(v) if k == "ret" else v, s2) for k, v, s2 in r]
         if n == "std::option::Option::<T>::take" and len(args) == 1:
             old = self.read_ref(st, args[0])
             return [(old, self.write_ref(st, args[0], NONE))]
